@@ -101,6 +101,10 @@ def embed_3d_via_rdkit(mol_graph):
     # add explicit hydrogen atoms
     add_explicit_hydrogens(mol_graph)
 
+    # the atoms of the rdkit molecule follow the iteration order of
+    # the nodes, which is not the order of the node keys in general
+    nodes = list(mol_graph.nodes)
+
     # convert to rdkit mol
     rdkit_mol = networkx_to_rdkit(mol_graph)
 
@@ -119,7 +123,7 @@ def embed_3d_via_rdkit(mol_graph):
     # write the positions to the original molecule graph
     for ndx, atom in enumerate(rdkit_mol.GetAtoms()):
         pos = conf.GetAtomPosition(atom.GetIdx())
-        mol_graph.nodes[ndx]['position'] = np.array([pos.x, pos.y, pos.z])
+        mol_graph.nodes[nodes[ndx]]['position'] = np.array([pos.x, pos.y, pos.z])
 
     return mol_graph
 
